@@ -542,3 +542,24 @@ Theorem C10_writer_is_rule_grammar_of_mid :
      its_to_gml its core reindex explicit_h = rule_grammar (its_to_gml_mid its core reindex explicit_h) explicit_h).
 Proof. split; [exact nx_to_gml_mid_spec|exact its_to_gml_mid_spec]. Qed.
 Print Assumptions C10_writer_is_rule_grammar_of_mid.
+
+(** ... and with reindex=True (THE DEFAULT of its_to_gml; smart_to_gml defaults to False): each of the three rules reads back as a
+    renumbering of the reaction centre c — exactly the atoms f n, element and both charges of n at f n, the bond dictionary of
+    (u, v) at (f u, f v) — with f = position in the node order of c for the string and the full-ITS routes, and position in
+    the node order of get_rc c for the centre-supplied route (the two orders may differ: equivalent rules, not equal ones). *)
+Theorem C10_three_routes_reindex :
+  forall (r p : gr) (eo : list (N * N)) (explicit_h : bool),
+    mol_ok r = true -> mol_ok p = true -> balanced r p = true -> eo_covers r p eo = true ->
+    let c := get_rc (its_construct r p eo) in
+    let fA := mapget (enum_from 1%N (node_ids c)) in
+    let fC := mapget (enum_from 1%N (node_ids (get_rc c))) in
+    let reads_c_by := fun (f : N -> N) (X : gr) =>
+      (forall k, has_node X k = true <-> exists n, In n (node_ids c) /\ k = f n) /\
+      (forall n a, label c n = Some a ->
+         label X (f n) = Some (gml_node (f n) (tg_el (tG_of a)) (tg_ch (tG_of a)) (tg_ch (tH_of a)))) /\
+      (forall u v, In u (node_ids c) -> In v (node_ids c) -> adj X (f u) (f v) = adj c u v) in
+    reads_c_by fA (gml_to_its (smart_to_gml r p eo true true explicit_h)) /\
+    reads_c_by fA (gml_to_its (its_to_gml (rsmi_to_its r p eo false false) true true explicit_h)) /\
+    reads_c_by fC (gml_to_its (its_to_gml (rsmi_to_its r p eo true false) true true explicit_h)).
+Proof. exact three_routes_reindex. Qed.
+Print Assumptions C10_three_routes_reindex.
